@@ -347,6 +347,25 @@ MUTATIONS = [
     {'id': 'c18-revert-dispersion-list-converter', 'props': ['C18'], 'tests': 'tests/test_legacy_yang.py',
      'desc': 'revert of fix 486edebe: per-frequency dispersion is not converted to the YANG list',
      'edits': [('gnpy/tools/convert_legacy_yang.py', "        json_data = convert_dispersion_list(json_data)\n", "")]},
+    {'id': 'c12-revert-aggregation-keeps-disjunctions', 'props': ['C12'], 'tests': 'tests/test_disjunction.py',
+     'desc': 'revert of fix 2ab2e466: disjunctions naming the kept request are deleted when identical requests are aggregated',
+     'edits': [('gnpy/topology/request.py', """                for this_d in disjlist:
+                    new_reqs = []
+                    for req_id in this_d.disjunctions_req:
+                        if req_id in (req.request_id, temp_r_id):
+                            req_id = this_r.request_id
+                        if req_id not in new_reqs:
+                            new_reqs.append(req_id)
+                    this_d.disjunctions_req = new_reqs
+""", """                for this_d in disjlist:
+                    if req.request_id in this_d.disjunctions_req:
+                        this_d.disjunctions_req.remove(req.request_id)
+                        this_d.disjunctions_req.append(this_r.request_id)
+                for this_d in disjlist:
+                    if temp_r_id in this_d.disjunctions_req:
+                        disjlist.remove(this_d)
+"""),
+               ('gnpy/topology/request.py', "    if any(d in dis2 for d in dis1):\n", "    if False:\n")]},
     {'id': 'c11-revert-explicit-ispart', 'props': ['C11'], 'tests': 'tests/test_path_computation_functions.py tests/test_disjunction.py',
      'desc': 'revert of fix e50d35fe: explicit route returned without checking the listed nodes are crossed in order',
      'edits': [('gnpy/topology/request.py', "    if total_path is not None and ispart(nodes_list, total_path):",
